@@ -613,8 +613,8 @@ fn c26_node_case(rng: &mut Rng, t: &mut Tally) {
 }
 
 pub fn run_c26(ctx: &Ctx) {
-    let n = ctx.tier.pick(40_000usize, 1_500_000);
-    let n_nodes = ctx.tier.pick(40_000usize, 1_000_000);
+    let n = ctx.tier.pick(200_000usize, 3_000_000);
+    let n_nodes = ctx.tier.pick(200_000usize, 2_000_000);
     let n_big = ctx.tier.pick(1usize, 4);
     ctx.set_rule(&format!(
         "{} byte strings of every length 0..264 (every residue mod 8) with limbs from {{0,1,p-2,p-1,p,p+1,2^64-1,2^32,random}}, plus lengths 2^20-8, 2^20, 2^20+8 x{}; near-miss pairs an unsound encoding would merge (x vs x||0^8, limb v vs v+p, two limbs swapped, 128-byte node payloads differing in one bit, x vs x with a trailing zero limb removed); \
@@ -1069,9 +1069,9 @@ fn c27_circuit_case(lc: &LeafCircuit, rng: &mut Rng, t: &mut Tally, c: usize) {
 }
 
 pub fn run_c27(ctx: &Ctx) {
-    let n_native = ctx.tier.pick(40_000usize, 2_000_000);
-    let n_unsorted = ctx.tier.pick(12_000usize, 400_000);
-    let n_circuit = ctx.tier.pick(3_400usize, 120_000);
+    let n_native = ctx.tier.pick(160_000usize, 4_000_000);
+    let n_unsorted = ctx.tier.pick(40_000usize, 800_000);
+    let n_circuit = ctx.tier.pick(6_800usize, 200_000);
     ctx.set_rule(&format!(
         "{} native proofs: reference-built valid paths of every depth 0..16 by quota (random canonical hashes, adversarially close hashes — equal siblings, siblings equal to the running hash or differing in the last byte — sorted siblings with a valid rank, and unsorted siblings with arbitrary positions), depth 17/18, and one corruption of a valid proof \
          (sibling byte, position in range, position 4..255, root byte, leaf byte, dropped/extra position, limb +p alias, limb >= p, levels swapped, root +p alias); {} from_unsorted inputs (depth 0..20, ties, non-canonical leaf/sibling, wrong root); {} real leaf statements on the leaf circuit (valid path or a corruption expressible in felts). \
